@@ -831,8 +831,8 @@ func checkWireTags(r *lib.Run) {
 func TestC07(t *testing.T) {
 	r := lib.Start("C07", "exploration")
 	checkWireTags(r)
-	nChain := r.N(48, 1000)
-	nShape := r.N(320, 8000)
+	nChain := r.N(48, 800)
+	nShape := r.N(320, 6500)
 	nFelt := r.N(16, 300)
 	r.Cases(nChain+nShape+nFelt, 0, func(idx int) {
 		switch {
